@@ -43,6 +43,7 @@ type caseDesc struct {
 	Throwable bool      `json:"throwable,omitempty"`
 	Full      bool      `json:"whole_program,omitempty"` // the cell fails only after the other cells of the program ran
 	Like      *likeCase `json:"like,omitempty"`
+	Nominal   *nominalCase `json:"nominal,omitempty"`
 	Script    string    `json:"script,omitempty"`
 	Want      string    `json:"want,omitempty"`
 	Got       string    `json:"got,omitempty"`
@@ -628,7 +629,7 @@ func graphWorker(w *pool.W, arg json.RawMessage) {
 
 func main() {
 	if pool.IsWorker() {
-		pool.Serve(map[string]pool.Handler{"graph": graphWorker, "like": likeWorker})
+		pool.Serve(map[string]pool.Handler{"graph": graphWorker, "like": likeWorker, "nominal": nominalWorker})
 	}
 	if len(os.Args) > 1 && os.Args[1] == "countsym" {
 		// development aid: size of the symmetry-reduced 4x3 family
@@ -762,6 +763,16 @@ func replay(c *ev.Check) {
 		os.Exit(2)
 	}
 	st := &stats{outcomes: map[string]int64{}}
+	if cs.Family == "like-nominal" {
+		want, got, script := evalNominal(st, *cs.Nominal, "L")
+		fmt.Println(script)
+		fmt.Printf("want=%v got=%s\n", want, got)
+		if nominalVerdict(want, got) != "" {
+			c.Fail(key, "like", 0, cs, fmt.Sprintf("want=%v got=%s", want, got))
+		}
+		c.Finish(1, st.runs, 1, "replay")
+		return
+	}
 	if cs.Family == "like" {
 		want, got, script := evalLike(st, *cs.Like)
 		fmt.Println(script)
